@@ -348,6 +348,30 @@ func addC04Case(run *Run, o OptSet, label string, a, b *Val) {
 		Probe{Kind: "corr", Rel: "Equals = equals model", Line: fmt.Sprintf("equals %s %s %s", o.Wire(), aw, bw), Want: eq},
 		Probe{Kind: "oracle", Rel: "C04 Equals = advertised equivalence (hash-free spec), symmetric, reflexive", Line: fmt.Sprintf("c04 %s %s %s %s %s %s", o.Wire(), aw, bw, eq, eqr, refl)},
 	)
+	// Equals asked twice on the SAME values, and the values afterwards: a comparison must not change what it compares
+	{
+		v := "ok"
+		res, _ := safely(func() string {
+			x, y := mustNode(aw), mustNode(bw)
+			jx, jy := x.Json(), y.Json()
+			e1 := x.Equals(y, o.Go()...)
+			e2 := x.Equals(y, o.Go()...)
+			if e1 != e2 {
+				v = "fail a second Equals on the same values answers differently"
+			} else if x.Json() != jx || y.Json() != jy {
+				v = "fail Equals changed one of the documents it compared: " + short(x.Json()) + " / " + short(y.Json())
+			} else if !x.Equals(mustNode(aw)) || !y.Equals(mustNode(bw)) {
+				v = "fail after an Equals a document is no longer Equal (list reading) to a fresh copy of itself"
+			}
+			return "done"
+		})
+		if res == "panic" {
+			v = "ok"
+		}
+		if v != "ok" {
+			c.Probes = append(c.Probes, Probe{Kind: "direct", Rel: "C04 Equals does not change its operands and answers the same when asked again", Want: v})
+		}
+	}
 	run.Count("opts:" + label)
 	run.Count("impl_equals:" + eq)
 	run.Add(c)
@@ -1731,6 +1755,33 @@ func addC06CaseO(run *Run, o OptSet, wrap string, a, b *Val, pre int, w func(*Va
 		Probe{Kind: "corr", Rel: "Diff = diffM (incl. golcs Values = lcsValues)", Line: fmt.Sprintf("diff %s %s %s", o.Wire(), aw, bw), Want: dw},
 		Probe{Kind: "oracle", Rel: "C06 removes/adds = len - LCS (spec), same-kind containers recursed into, one line of context equal to the neighbours", Line: fmt.Sprintf("c06 %d %s %s %s", pre, a.Wire(), b.Wire(), dw)},
 	)
+	// the diff against a document PRODUCED BY Patch (its containers were hashed by an earlier Diff and then edited in
+	// place) must be the diff against the same document freshly read: c = b with its last element moved to the front
+	// (documents as decoded only: a typed array and a decoded array are different Go types and diff as a replacement)
+	if db.K == KArr && len(db.A) > 1 && o.Wire() == OptNone.Wire() && !strings.Contains(aw+bw, "[l ") && !strings.Contains(aw+bw, "[s ") && !strings.Contains(aw+bw, "[m ") {
+		v := "ok"
+		res, _ := safely(func() string {
+			x := mustNode(aw)
+			p, err := x.Patch(x.Diff(mustNode(bw)))
+			if err != nil {
+				return "done"
+			}
+			cv := db.Clone()
+			cv.A = append([]*Val{cv.A[len(cv.A)-1]}, cv.A[:len(cv.A)-1]...)
+			d1 := jd.VerifEncodeDiff(mustNode(cv.Wire()).Diff(p))
+			d2 := jd.VerifEncodeDiff(mustNode(cv.Wire()).Diff(mustNode(bw)))
+			if untagWire(d1) != untagWire(d2) {
+				v = "fail the diff of " + short(cv.Wire()) + " against the document Patch produced is " + short(d1) + ", against the same document freshly read " + short(d2)
+			}
+			return "done"
+		})
+		if res == "panic" {
+			v = "ok"
+		}
+		if v != "ok" {
+			c.Probes = append(c.Probes, Probe{Kind: "direct", Rel: "C06 a list diff against a patched document is the diff against the same document freshly read", Want: v})
+		}
+	}
 	run.Count("wrapper:" + wrap)
 	run.Count("hunks:" + sizeBucket(hunkCount(dw)))
 	run.Add(c)
